@@ -8,6 +8,7 @@ against the translation in a scratch Coq directory (never /verif/coq).
 usage: PYTHONPATH=harness:/repo/src /venv/bin/python harness/py2coq_demo.py [Target ...]
 """
 import os
+import re
 import shutil
 import subprocess
 import sys
@@ -15,6 +16,12 @@ import sys
 import common
 import py2coq
 
+FR = 'exactly_lib/execution/full_execution/result.py'
+EV = 'exactly_lib/processing/exit_values.py'
+SP = 'exactly_lib/test_suite/reporters/simple_progress_reporter.py'
+JU = 'exactly_lib/test_suite/reporters/junit.py'
+COMB = 'exactly_lib/util/interval/w_inversion/combinations.py'
+INTS = 'exactly_lib/util/interval/w_inversion/intervals.py'
 RM = 'exactly_lib/impls/types/string_transformer/impl/filter/line_nums/range_merge.py'
 
 # (target, name, expected 'pass'|'fail', file, [(old, new), ...])
@@ -53,12 +60,47 @@ CASES = [
     ('LineNums', 'r2-while-loop-refused', 'refused', RM, [
         ('    for from_to in segments:\n        if from_to[0] <= initial + 1:',
          '    while False:\n        pass\n    for from_to in segments:\n        if from_to[0] <= initial + 1:')]),
+    ('Interval', 'unchanged', 'pass', COMB, []),
+    ('Interval', 'h1-rename-locals', 'pass', COMB, [('non_none_lowers', 'los'), ('non_none_uppers', 'his'), ('ret_val', 'acc')]),
+    ('Interval', 'h2-equivalent-rewrite', 'pass', COMB, [('if lower is not None and upper is not None and lower > upper',
+                                                          'if upper is not None and lower is not None and upper < lower')]),
+    ('Interval', 'm1-union-lower-max', 'fail', COMB, [('        min(non_none_lowers)\n    )\n    upper = (\n        None\n        if len(', '        max(non_none_lowers)\n    )\n    upper = (\n        None\n        if len(')]),
+    ('Interval', 'm2-intersection-ge', 'fail', COMB, [('and lower > upper', 'and lower >= upper')]),
+    ('Interval', 'm3-of-wrong-class', 'fail', COMB, [('return UpperLimit(upper)', 'return LowerLimit(upper)')]),
+    ('Interval', 'm4-union-anyof', 'fail', COMB, [('if len(non_none_lowers) != 2', 'if not non_none_lowers')]),
+    ('Interval', 'm5-upper-inversion-off-by-one', 'fail', INTS, [('return LowerLimit(self._upper + 1)', 'return LowerLimit(self._upper)')]),
+    ('Interval', 'm6-custom-is_empty-of-inversion', 'fail', INTS, [('return self._pos.is_empty', 'return self._inversion.is_empty')]),
+    ('Interval', 'm7-custom-inversion-not-swapped', 'fail', INTS, [('return WithCustomInversion(self._inversion, self._pos)',
+                                                                    'return WithCustomInversion(self._pos, self._inversion)')]),
+    ('Interval', 'm8-union-drop-empty-check', 'fail', COMB, [('def union(a: IntIntervalWInversion, b: IntIntervalWInversion) -> IntIntervalWInversion:\n    if a.is_empty:\n        return b\n',
+                                                             'def union(a: IntIntervalWInversion, b: IntIntervalWInversion) -> IntIntervalWInversion:\n')]),
+    ('Outcome', 'unchanged', 'pass', FR, []),
+    ('Outcome', 'h1-rename-parameter', 'pass', FR, [('ps: Optional[ExecutionFailureStatus]', 'partial_status: Optional[ExecutionFailureStatus]'),
+                                                    ('if ps is ExecutionFailureStatus.FAIL', 'if partial_status is ExecutionFailureStatus.FAIL'),
+                                                    ('elif ps is None', 'elif partial_status is None'), ('    if ps is None:', '    if partial_status is None:'),
+                                                    ('FullExeResultStatus(ps.value)', 'FullExeResultStatus(partial_status.value)')]),
+    ('Outcome', 'h2-reorder-dict-entries', 'pass', EV, [
+        ('    FullExeResultStatus.PASS: _for_full_result(0, FullExeResultStatus.PASS, ForegroundColor.GREEN),\n', ''),
+        ('    FullExeResultStatus.FAIL: _for_full_result(32,', '    FullExeResultStatus.PASS: _for_full_result(0, FullExeResultStatus.PASS, ForegroundColor.GREEN),\n    FullExeResultStatus.FAIL: _for_full_result(32,')]),
+    ('Outcome', 'm1-xfail-xpass-swapped', 'fail', FR, [('            return FullExeResultStatus.XFAIL\n        elif ps is None:\n            return FullExeResultStatus.XPASS',
+                                                         '            return FullExeResultStatus.XPASS\n        elif ps is None:\n            return FullExeResultStatus.XFAIL')]),
+    ('Outcome', 'm2-xfail-exit-code', 'fail', EV, [('_for_full_result(32 + 1, FullExeResultStatus.XFAIL', '_for_full_result(32, FullExeResultStatus.XFAIL')]),
+    ('Outcome', 'm3-enum-value-changed', 'fail', FR, [('    HARD_ERROR = 99\n', '    HARD_ERROR = 98\n')]),
+    ('Outcome', 'm4-mode-test-changed', 'fail', FR, [('if execution_mode is TestCaseStatus.FAIL', 'if execution_mode is TestCaseStatus.PASS')]),
+    ('Outcome', 'm5-no-execution-exit-code', 'fail', EV, [('NO_EXECUTION_EXIT_CODE = 65', 'NO_EXECUTION_EXIT_CODE = 64')]),
+    ('Outcome', 'm6-identifier-of-other-status', 'fail', EV, [('_for_full_result(128, FullExeResultStatus.HARD_ERROR,', '_for_full_result(128, FullExeResultStatus.INTERNAL_ERROR,')]),
+    ('Reporters', 'unchanged', 'pass', SP, []),
+    ('Reporters', 'h1-reorder-set', 'pass', SP, [('{FullExeResultStatus.PASS,\n                    FullExeResultStatus.SKIPPED,', '{FullExeResultStatus.SKIPPED,\n                    FullExeResultStatus.PASS,')]),
+    ('Reporters', 'm1-xfail-not-success', 'fail', SP, [('                    FullExeResultStatus.SKIPPED,\n                    FullExeResultStatus.XFAIL\n', '                    FullExeResultStatus.SKIPPED,\n')]),
+    ('Reporters', 'm2-junit-hard-error-is-failure', 'fail', JU, [('FAIL_STATUSES = {FullExeResultStatus.FAIL,', 'FAIL_STATUSES = {FullExeResultStatus.FAIL, FullExeResultStatus.HARD_ERROR,')]),
+    ('Reporters', 'm3-junit-validation-not-error', 'fail', JU, [('                  FullExeResultStatus.VALIDATION_ERROR,\n', '')]),
 ]
 
 DEPS = {  # compiled files of /verif/coq the proof needs (copied, not rebuilt)
     'LineNums': ['Lib/PyVal', 'Model/LineNums', 'Proofs/PyValLemmas'],
     'Interval': ['Lib/PyVal', 'Model/Interval', 'Proofs/PyValLemmas'],
-    'Outcome': ['Lib/PyVal', 'Model/Outcome', 'Proofs/PyValLemmas'],
+    'Outcome': ['Lib/PyVal', 'Model/Outcome', 'Proofs/SrcTieOutcomeEnc'],
+    'Reporters': ['Lib/PyVal', 'Model/Outcome', 'Model/Suite', 'Proofs/SrcTieOutcomeEnc'],
 }
 
 
@@ -88,14 +130,16 @@ def run_case(target, name, expect, rel, edits, root):
         py2coq.gen(target, src=src, out_dir=os.path.join(scratch, 'Gen'))
     except py2coq.Unsupported as ex:
         return 'refused', str(ex)
-    same = open(os.path.join(scratch, 'Gen', 'Src_%s.v' % target)).read() == open(os.path.join(common.COQ, 'Gen', 'Src_%s.v' % target)).read()
+    a, b = [open(os.path.join(d, 'Gen', 'Src_%s.v' % target)).read() for d in (scratch, common.COQ)]
+    strip = lambda t: re.sub(r'lines \d+-\d+ sha256:[0-9a-f]+', '', t)
+    same = 'byte-identical' if a == b else 'identical up to line numbers and source hashes in comments' if strip(a) == strip(b) else 'different text'
     rc, out = coqc(scratch, 'Gen/Src_%s.v' % target)
     if rc != 0:
         return 'fail', 'translated file does not compile: ' + out[-300:]
     shutil.copy(os.path.join(common.COQ, 'Proofs', 'SrcTie%s.v' % target), os.path.join(scratch, 'Proofs'))
     rc, out = coqc(scratch, 'Proofs/SrcTie%s.v' % target)
     if rc == 0:
-        return 'pass', 'proof checks' + (' (translation identical up to the source hashes in comments)' if not same else ' (translation byte-identical)')
+        return 'pass', 'proof checks (translation %s)' % same
     broken = common.parse_coq_errors(out, scratch)
     return 'fail', '; '.join('obligation %s (line %d): %s' % (b[2], b[1], b[3][:160]) for b in broken) or out[-300:]
 
